@@ -491,6 +491,16 @@ class GriddedPSFModel(ModelGridPlotMixin, Fittable2DModel):
         xi = np.clip(xi, x0, x1)
         yi = np.clip(yi, y0, y1)
 
+        if x1 == x0 or y1 == y0:
+            # the grid has a single point along an axis: all the weight
+            # along that axis goes to that point
+            wx = (np.array([1.0, 0.0]) if x1 == x0
+                  else np.array([x1 - xi, xi - x0]) / (x1 - x0))
+            wy = (np.array([1.0, 0.0]) if y1 == y0
+                  else np.array([y1 - yi, yi - y0]) / (y1 - y0))
+            return np.array([wx[0] * wy[0], wx[1] * wy[0],
+                             wx[0] * wy[1], wx[1] * wy[1]])
+
         norm = (x1 - x0) * (y1 - y0)
         # lower-left, lower-right, upper-left, upper-right
         return np.array([(x1 - xi) * (y1 - yi), (xi - x0) * (y1 - yi),
